@@ -954,8 +954,34 @@ def runModelRow (sc : List String) : List String :=
         ["defer:closeSocket", "roundTrip", answered, "release",
          if (s2.conns 1).st == .idle then "next-iteration" else "leave-loop"]
 
+/-- (*Conn).doRequest: one `write` event -/
+def doRequestModelRow (sc : List String) : List String :=
+  let wf := flag sc "writeFailed"
+  match step (init []) (.write 10 (!wf) 1) with
+  | none => ["model: event not enabled"]
+  | some s1 =>
+    ["enter", "lock", "nextId", "write"] ++
+    (if s1.closed && statusOf s1 1 == some (.done .err) then ["close", "leave"] else []) ++ ["unlock"]
+
+/-- protocol.RoundTrip on a pooled conn in the middle of an exchange: `done ok` is possible exactly when a frame
+with the id just written is read -/
+def roundTripModelRow (sc : List String) : List String :=
+  let wf := flag sc "writeFailed"; let er := flag sc "expectsResponse"
+  let rf := flag sc "readFailed"; let mm := flag sc "idMismatch"
+  if wf then ["write", "return:error"]
+  else if !er then ["write", "return:nothing"]
+  else
+    let fid := if mm then 9 else 2
+    match TransportConn.run [.new 1 1 1 [⟨fid, 5⟩], .recv 1 5] with
+    | none => ["model: no such state"]
+    | some s0 =>
+      let okPossible := (TransportConn.step s0 (.done 1 .ok)).isSome
+      ["write", "read", if !rf && okPossible then "return:response" else "return:error"]
+
 /-- the extracted decision tables are the models' transitions -/
 theorem flow_tables_are_the_models :
+    Gen.MuxFacts.doRequestFlow.all (fun (sc, eff) => doRequestModelRow sc == eff) = true ∧
+    Gen.MuxFacts.roundTripFlow.all (fun (sc, eff) => roundTripModelRow sc == eff) = true ∧
     Gen.MuxFacts.waitResponseFlow.all (fun (sc, eff) => waitResponseModelRow sc == eff) = true ∧
     Gen.MuxFacts.doFlow.all (fun (sc, eff) => doModelRow sc == eff) = true ∧
     Gen.MuxFacts.runFlow.all (fun (sc, eff) => runModelRow sc == eff) = true := by
